@@ -1,7 +1,8 @@
 (* C07 clause 705, as a trace predicate of its own (Session/Spec.v lists the code but c07_scan has no clause for it):
    a store reset never happens without a cause.  With no reset option configured (ResetOnLogon / ResetOnLogout /
    ResetOnDisconnect all off), an event in which the store is reset is one of
-     - a directly processed Logon carrying ResetSeqNumFlag=Y (a reset the peer asks for, or the echo of ours),
+     - a directly processed Logon carrying ResetSeqNumFlag=Y that the validator and the application (FromAdmin) accept
+       (a reset the peer asks for, or the echo of ours),
      - the ResetSeqTime crossing (the engine sends a Logon carrying 141=Y),
      - the application itself sending a Logon carrying 141=Y through SendToTarget,
    or an event that handles buffered frames while a Logon carrying 141=Y may sit in the inbound buffer (`pend`: such a Logon
@@ -14,16 +15,19 @@ Import ListNotations.
 Open Scope list_scope.
 Open Scope Z_scope.
 
+(* a Logon carrying ResetSeqNumFlag=Y that the validator and the application accept: a Logon that FromAdmin refuses
+   (RejectLogon or a reject) or that the validator rejects negotiates nothing *)
+Definition is_reset_logon (m : minput) : bool :=
+  beq_bytes (mi_type m) T_LOGON && match mi_reset m with FVal true => true | _ => false end
+  && match mi_valid m with VAccept => true | _ => false end && match mi_app m with VAccept => true | _ => false end.
+
 Definition reset_cause (e : event) : bool :=
   match e with
   | EResetSeqTime => true
   | EAppSend t body _ => beq_bytes t T_LOGON && body_has_reset_y body
-  | EIncoming m => beq_bytes (mi_type m) T_LOGON && match mi_reset m with FVal true => true | _ => false end
+  | EIncoming m => is_reset_logon m
   | _ => false
   end.
-
-Definition is_reset_logon (m : minput) : bool :=
-  beq_bytes (mi_type m) T_LOGON && match mi_reset m with FVal true => true | _ => false end.
 Definition arrives_reset (e : event) : bool := match e with EArrive m => is_reset_logon m | _ => false end.
 
 (* code 705: a reset without any cause *)
